@@ -235,6 +235,25 @@ def extract():
     if t is None or any(calls(st, "send") for st in t.body) or not any(calls(st, "send") for st in hs.body if st is not t):
         raise ValueError("Daemon._handshake: the reply is no longer sent after (outside) the try block")
 
+    # -- recv_stub refuses an invalid prefix after its first six bytes: first recv of a constant <= 6, validate, then the rest
+    from Pyro5 import protocol
+    ptree = ast.parse(open(protocol.__file__).read())
+    rs = [n for n in ptree.body if isinstance(n, ast.FunctionDef) and n.name == "recv_stub"][0]
+    order = []
+    for n in sorted((n for n in ast.walk(rs) if isinstance(n, ast.Call) and isinstance(n.func, ast.Attribute)
+                     and n.func.attr in ("recv", "validate")), key=lambda n: (n.lineno, n.col_offset)):
+        if n.func.attr == "recv":
+            a = n.args[0] if n.args else None
+            order.append("recv:%s" % (a.value if isinstance(a, ast.Constant) else "expr"))
+        else:
+            order.append("validate")
+    prefix_first = len(order) >= 3 and order[0].startswith("recv:") and order[0][5:].isdigit() and int(order[0][5:]) <= 6 \
+        and order[1] == "validate" and order[2].startswith("recv:")
+    # -- the fallback for an exception that cannot be serialised catches every Exception
+    sx = find(stree, "Daemon", "_serializeException")
+    t = try_around(sx, "dumps")
+    fallback_all = t is not None and bool(set(ladder(server, t)) & {"exception", "baseException"})
+
     reps = [("connClosed", errors.ConnectionClosedError), ("pyroTimeout", errors.TimeoutError), ("protocol", errors.ProtocolError),
             ("serialize", errors.SerializeError), ("security", errors.SecurityError), ("osError", OSError),
             ("sockTimeout", socket.timeout), ("other", KeyError), ("keyboardInterrupt", KeyboardInterrupt), ("baseOther", SystemExit)]
@@ -278,6 +297,12 @@ def unguardedSocketCalls : List String := {json.dumps(unguarded_calls)}
     (thread; so the refusal path reads with the timeout too) / before `_handshake` (multiplex) -/
 def threadTimeoutBeforeJob : Bool := {b(thr_timeout_first)}
 def multiplexTimeoutBeforeHandshake : Bool := {b(mux_timeout_first)}
+/-- recv_stub reads at most 6 bytes, validates them, and only then reads the rest of the header: an invalid prefix is
+    refused without waiting for more bytes from the peer -/
+def headerPrefixValidatedFirst : Bool := {b(prefix_first)}
+/-- Daemon._serializeException: the fallback around serializer.dumps(exc_value) is `except Exception` (whatever goes wrong
+    while serialising a raised exception, the caller still gets an error reply and keeps its connection) -/
+def exceptionFallbackCatchesAll : Bool := {b(fallback_all)}
 end Pyro.Gen.C05
 """
 
@@ -308,6 +333,8 @@ def run_real(h, servertype):
             out["stuck"] = repr(x)
         out["loop_alive"] = rig.loop_alive
         out["blocked"] = [(c, "acceptor" if t == rig.main_thread else "worker") for c, t in rig.blocked]
+        who = lambda t: ("loop" if servertype == "multiplex" else "acceptor") if t == rig.main_thread else "worker"
+        out["waited"] = [(c, who(t)) for c, t in rig.waited]
         out["loop_exc"] = rig.loop_exc
         out["obs"] = [rig.observe(c) if c in rig.started else None for c in range(h["nconn"])]
         out["replies"] = {c: rig.replies(c) for c in list(h["witnesses"]) + [h["fresh"]]}
@@ -377,7 +404,10 @@ def reply_matches(rep, want):
 def oracle_case(ctx, h, servertype, out, case):
     st = servertype
     if out["stuck"]:
-        ctx.fail("stuck:" + st, "%s server got stuck: %s" % (st, out["stuck"]), case)
+        ctx.fail("stuck:" + st, "%s server got stuck: %s — %s" % (st, out["stuck"], (
+            "the worker serving that connection never comes back: it spins or waits although everything the peer will ever send "
+            "is there, and stays in Pool.busy after the peer has left" if st == "thread" else
+            "the handler never returns to the single request loop: no client is served and nothing is accepted any more")), case)
         return
     if not out["loop_alive"]:
         e = out["loop_exc"] or ("?", "loop", "")
@@ -394,6 +424,15 @@ def oracle_case(ctx, h, servertype, out, case):
                  "given the timeout: in a daemon this recv() blocks for ever%s"
                  % (st, h["commtimeout"], who[0], out["blocked"][0][0],
                     " and nothing is accepted any more" if "acceptor" in who else ""), case)
+    # an invalid prefix (>= 6 bytes) is refused at once: no thread may wait for more bytes from that (connected, silent) peer
+    silent = {s[1] for s in h["steps"] if s[0] == "send" and s[3] == "silent"}
+    w = [(c, t) for c, t in out.get("waited", []) if c in silent]
+    if w:
+        ctx.fail("waits-for-silent-peer:%s:%s" % (st, w[0][1]),
+                 "%s server: connection %d sent 6..39 bytes that already fail the header check and stays connected without sending "
+                 "more; instead of refusing it the %s waited for further bytes%s"
+                 % (st, w[0][0], w[0][1], {"loop": ": the whole multiplex loop stands still", "acceptor": ": nothing is accepted meanwhile",
+                                           "worker": ""}[w[0][1]]), case)
     # witnesses: exactly the correct replies to their own calls, still connected
     for w in h["witnesses"]:
         want = [expected_reply(s[6]) for s in h["steps"] if s[0] == "send" and s[1] == w and s[6]]
@@ -470,7 +509,7 @@ def _run(ctx, name, n, do_model):
         while state["made"] < n or (do_model and any(gen.exhaustive.values()) and state["made"] < n + 20000):
             k = min(1000, max(n - state["made"], 200))      # the systematic sweep must be used up, too
             state["made"] += k
-            yield [gen.history(None) for _ in range(k)]
+            yield (gen.history(None) for _ in range(k))     # lazily: on a tree where the decoder hangs each history costs seconds
 
     with warnings.catch_warnings():
         # serpent parses (mutated) payload text with ast.literal_eval, which warns about odd escape sequences
